@@ -201,7 +201,10 @@ func (g *ilvGen) less() *Node {
 // mutate applies an in-place or capacity-sensitive builtin to a view.
 func (g *ilvGen) mutate() *Node {
 	v := g.view(g.r.Range(0, 2))
-	switch g.r.Pick([]int{8, 3, 4, 3, 3, 2, 2, 2, 2, 2, 2, 1}) {
+	switch g.r.Pick([]int{8, 3, 4, 3, 3, 2, 2, 2, 2, 2, 2, 1, 3}) {
+	case 12:
+		// zero-value appends return a value that may still share the input's storage
+		return Call("stable-sort", g.less(), Call("append", QS(PickStr(g.r, []string{"vector", "list"})), v))
 	case 0:
 		return Call("stable-sort", g.less(), v)
 	case 1:
